@@ -2,7 +2,7 @@
    Only theorem statements closed by `exact` (or a one-line combination), each followed by
    Print Assumptions; plus non-vacuity examples and the refutation witnesses of the findings. *)
 From Snax Require Import Base.Prelude Model.Tsl Model.C12Const Model.C12Casts Proofs.TslProofs
-  Proofs.C05DigitProofs Proofs.C05MainProofs Proofs.C12ConstProofs Proofs.C12CastsProofs Proofs.C12CoherenceProofs.
+  Proofs.C05DigitProofs Proofs.C05MainProofs Proofs.C05ExtraProofs Proofs.C12ConstProofs Proofs.C12CastsProofs Proofs.C12CoherenceProofs.
 
 (* (i) re-laid-out constants: for every static layout with positive bounds that satisfies the
    sortedness precondition (checked to follow from is_dense by the correspondence run), any contents
@@ -18,6 +18,18 @@ Proof.
   intros L old new idx H. apply layout_okb_ok in H. exact (transform_constant_correct L old new idx H).
 Qed.
 Print Assumptions C12_transform_constant_correct.
+
+(* final form: the element at ROW-MAJOR position idx of the original constant sits at the address the new
+   layout assigns to idx *)
+Theorem C12_transform_constant_row_major :
+  forall (L : layout) (old new : list Z) (idx : list Z),
+    layout_okb L = true -> mixed_radix_sorted L = true -> transform_constant old L = Some (Some new) ->
+    In idx (row_major (shape_of L)) ->
+    nth (Z.to_nat (affine_map_eval L idx)) new 0 = nth (Z.to_nat (rm_addr (shape_of L) idx)) old 0.
+Proof.
+  intros L old new idx H. apply layout_okb_ok in H. exact (transform_constant_row_major L old new idx H).
+Qed.
+Print Assumptions C12_transform_constant_row_major.
 
 (* the same on the flat strides, for all multi-indices of the reshaped array *)
 Theorem C12_relayout_correct :
